@@ -1,0 +1,12 @@
+//go:build verif
+
+package tor
+
+import "github.com/jech/storrent/hash"
+
+// VerifSetPieceHashes replaces the table of piece hashes (nil makes
+// finalisePiece return before it spawns its goroutine).
+func (t *Torrent) VerifSetPieceHashes(h []hash.Hash) { t.PieceHashes = h }
+
+// VerifSetUseWebseeds sets the per-torrent web-seed switch.
+func (t *Torrent) VerifSetUseWebseeds(b bool) { t.useWebseeds = b }
